@@ -9,12 +9,16 @@
 
 GLM_FUNC_QUALIFIER glm_f32vec4 glm_vec1_sqrt_lowp(glm_f32vec4 x)
 {
-	return _mm_mul_ss(_mm_rsqrt_ss(x), x);
+	// rsqrt(0) is infinite and 0 * inf is not a number: the square root of zero is zero
+	glm_f32vec4 const mul0 = _mm_mul_ss(_mm_rsqrt_ss(x), x);
+	return _mm_andnot_ps(_mm_cmpeq_ss(x, _mm_setzero_ps()), mul0);
 }
 
 GLM_FUNC_QUALIFIER glm_f32vec4 glm_vec4_sqrt_lowp(glm_f32vec4 x)
 {
-	return _mm_mul_ps(_mm_rsqrt_ps(x), x);
+	// rsqrt(0) is infinite and 0 * inf is not a number: the square root of zero is zero
+	glm_f32vec4 const mul0 = _mm_mul_ps(_mm_rsqrt_ps(x), x);
+	return _mm_andnot_ps(_mm_cmpeq_ps(x, _mm_setzero_ps()), mul0);
 }
 
 #endif//GLM_ARCH & GLM_ARCH_SSE2_BIT
